@@ -306,7 +306,14 @@ theorem dedup_pairs (rest : List Diag) : ∀ (cur : Diag) (names : List String),
   induction rest with
   | nil =>
     intro cur names _ _ k n
-    simp [dedupLoop, opair_cons, opair]
+    simp only [dedupLoop, obs_cons, obs_nil, opair_cons]
+    constructor
+    · rintro (h | ⟨ns, hm, _⟩)
+      · exact Or.inl h
+      · cases hm
+    · rintro (h | ⟨x, hx, _⟩)
+      · exact Or.inl h
+      · cases hx
   | cons d ds ih =>
     intro cur names hok hb k n
     have hok' : EqOK (cur :: ds) := hok.sub (by
@@ -347,7 +354,7 @@ theorem dedup_pairs (rest : List Diag) : ∀ (cur : Diag) (names : List String),
         constructor
         · rintro (h | ⟨hk, h⟩ | ⟨x, hx, h⟩)
           · exact Or.inl h
-          · exact Or.inr ⟨d, by simp, hk.symm, by simpa using h.symm⟩
+          · exact Or.inr ⟨d, by simp, hk.symm, (List.mem_singleton.mp h).symm⟩
           · exact Or.inr ⟨x, List.mem_cons_of_mem _ hx, h⟩
         · rintro (h | ⟨x, hx, h⟩)
           · exact Or.inl h
@@ -549,5 +556,181 @@ theorem canon_ext {o o' : List (Desc × List String)} (c : Canon o) (c' : Canon 
   · intro e
     exact ⟨key o o' c c' (fun k => (hk k).mp) hp e,
            key o' o c' c (fun k => (hk k).mpr) (fun k n => (hp k n).symm) e⟩
+
+/-! ### printCore on a sorted list -/
+
+theorem printCore_canon {s : List Diag} (hs : Sorted s) : Canon (obs (printCore s)) := by
+  cases s with
+  | nil => exact ⟨by simp [printCore, okeys], by simp [printCore]⟩
+  | cons d ds =>
+    exact ⟨(dedup_keys_sorted ds d [d.build] hs).1, dedup_names_sorted ds d [d.build] (by simp)⟩
+
+theorem printCore_keys {s : List Diag} (hok : EqOK s) (k : Desc) :
+    k ∈ okeys (obs (printCore s)) ↔ ∃ x ∈ s, x.desc = k := by
+  cases s with
+  | nil => simp [printCore, okeys]
+  | cons d ds =>
+    simp only [printCore]
+    rw [dedup_keys ds d [d.build] hok k]
+    constructor
+    · rintro (h | ⟨x, hx, h⟩)
+      · exact ⟨d, by simp, h.symm⟩
+      · exact ⟨x, List.mem_cons_of_mem _ hx, h⟩
+    · rintro ⟨x, hx, h⟩
+      rcases List.mem_cons.mp hx with e | e
+      · subst e; exact Or.inl h.symm
+      · exact Or.inr ⟨x, e, h⟩
+
+theorem printCore_pairs {s : List Diag} (hok : EqOK s) (k : Desc) (n : String) :
+    opair (obs (printCore s)) k n ↔ ∃ x ∈ s, x.desc = k ∧ x.build = n := by
+  cases s with
+  | nil => simp [printCore, opair]
+  | cons d ds =>
+    simp only [printCore]
+    rw [dedup_pairs ds d [d.build] hok (by simp) k n]
+    constructor
+    · rintro (⟨h, hn⟩ | ⟨x, hx, h⟩)
+      · exact ⟨d, by simp, h.symm, (List.mem_singleton.mp hn).symm⟩
+      · exact ⟨x, List.mem_cons_of_mem _ hx, h⟩
+    · rintro ⟨x, hx, h⟩
+      rcases List.mem_cons.mp hx with e | e
+      · subst e; exact Or.inl ⟨h.1.symm, by simp [h.2]⟩
+      · exact Or.inr ⟨x, e, h⟩
+
+/-! ### mergeRuns -/
+
+theorem Run.has_iff (r : Run) (k : Desc) : r.has k = true ↔ ∃ d ∈ r.diags, d.desc = k := by
+  simp [Run.has]
+
+theorem keepAll_iff (runs : List Run) (d : Diag) :
+    keepAll runs d = true ↔
+      ∀ r ∈ runs, d.desc.pos.file ∈ r.checked → r.has d.desc = true := by
+  simp only [keepAll, List.all_eq_true, Bool.or_eq_true, Bool.not_eq_true']
+  constructor
+  · intro h r hr hc
+    rcases h r hr with h' | h'
+    · have : r.checked.contains d.desc.pos.file = true := List.contains_iff_mem.mpr hc
+      rw [this] at h'; cases h'
+    · exact h'
+  · intro h r hr
+    by_cases hc : r.checked.contains d.desc.pos.file = true
+    · exact Or.inr (h r hr (List.contains_iff_mem.mp hc))
+    · exact Or.inl (by simpa using hc)
+
+theorem mem_mergeRuns (runs : List Run) (d : Diag) :
+    d ∈ mergeRuns runs ↔ ∃ r ∈ runs, d ∈ r.diags ∧ relevant runs d = true := by
+  simp [mergeRuns, List.mem_flatMap, List.mem_filter]
+
+theorem keepAll_congr {runs runs' : List Run} (h : ∀ r, r ∈ runs ↔ r ∈ runs') (d : Diag) :
+    keepAll runs d = keepAll runs' d := by
+  rw [Bool.eq_iff_iff, keepAll_iff, keepAll_iff]
+  constructor
+  · intro hh r hr; exact hh r ((h r).mpr hr)
+  · intro hh r hr; exact hh r ((h r).mp hr)
+
+theorem relevant_congr {runs runs' : List Run} (h : ∀ r, r ∈ runs ↔ r ∈ runs') (d : Diag) :
+    relevant runs d = relevant runs' d := by
+  simp only [relevant, keepAll_congr h d]
+
+theorem mem_mergeRuns_congr {runs runs' : List Run} (h : ∀ r, r ∈ runs ↔ r ∈ runs') (d : Diag) :
+    d ∈ mergeRuns runs ↔ d ∈ mergeRuns runs' := by
+  rw [mem_mergeRuns, mem_mergeRuns]
+  constructor
+  · rintro ⟨r, hr, hd, hrel⟩; exact ⟨r, (h r).mp hr, hd, by rw [← relevant_congr h]; exact hrel⟩
+  · rintro ⟨r, hr, hd, hrel⟩; exact ⟨r, (h r).mpr hr, hd, by rw [relevant_congr h]; exact hrel⟩
+
+/-- check names are spelled consistently: categories that `diagnostic.equal` identifies
+(it folds case) are identical.  True of every run a linter binary produces (categories
+are the registered analyzer names). -/
+def CaseConsistent (runs : List Run) : Prop :=
+  ∀ r ∈ runs, ∀ d ∈ r.diags, ∀ r' ∈ runs, ∀ d' ∈ r'.diags,
+    foldCase d.desc.cat = foldCase d'.desc.cat → d.desc.cat = d'.desc.cat
+
+theorem equal_desc_of_cat {p o : Diag} (h : p.equal o = true)
+    (hc : foldCase p.desc.cat = foldCase o.desc.cat → p.desc.cat = o.desc.cat) : p.desc = o.desc := by
+  simp only [Diag.equal, Bool.and_eq_true, decide_eq_true_eq] at h
+  obtain ⟨⟨⟨⟨⟨⟨h1, h2⟩, h3⟩, h4⟩, _⟩, _⟩, _⟩ := h
+  have h5 := hc h4
+  rcases p with ⟨⟨pp, pe, pc, pm⟩, _, _, _⟩
+  rcases o with ⟨⟨op, oe, oc, om⟩, _, _, _⟩
+  simp only at h1 h2 h3 h5
+  simp [h1, h2, h3, h5]
+
+theorem eqOK_of_caseConsistent {runs : List Run} (hc : CaseConsistent runs) {s : List Diag}
+    (hs : ∀ x ∈ s, x ∈ mergeRuns runs) : EqOK s := by
+  intro x hx y hy he
+  rcases (mem_mergeRuns _ _).mp (hs x hx) with ⟨r, hr, hd, _⟩
+  rcases (mem_mergeRuns _ _).mp (hs y hy) with ⟨r', hr', hd', _⟩
+  exact equal_desc_of_cat he (hc r hr x hd r' hr' y hd')
+
+theorem CaseConsistent.congr {runs runs' : List Run} (hc : CaseConsistent runs)
+    (h : ∀ r, r ∈ runs ↔ r ∈ runs') : CaseConsistent runs' :=
+  fun r hr d hd r' hr' d' hd' => hc r ((h r).mpr hr) d hd r' ((h r').mpr hr') d' hd'
+
+/-! ### runFromLintResult -/
+
+theorem find_mapSet (m : List Diag) (d : Diag) (k : Desc) :
+    (mapSet m d).find? (fun x => x.desc = k) =
+      if d.desc = k then some d else m.find? (fun x => x.desc = k) := by
+  induction m with
+  | nil => simp [mapSet, List.find?]
+  | cons x xs ih =>
+    unfold mapSet
+    by_cases hx : x.desc = d.desc
+    · simp only [hx, if_true]
+      by_cases hk : d.desc = k
+      · simp [List.find?, hk]
+      · simp [List.find?, hk, hx]
+    · simp only [hx, if_false]
+      by_cases hk : d.desc = k
+      · have : ¬ x.desc = k := fun e => hx (e.trans hk.symm)
+        simp [List.find?, this, ih, hk]
+      · by_cases hxk : x.desc = k
+        · simp [List.find?, hxk, hk]
+        · simp [List.find?, hxk, ih, hk]
+
+theorem find_foldl_mapSet (ds : List Diag) : ∀ (m : List Diag) (k : Desc),
+    (ds.foldl mapSet m).find? (fun x => x.desc = k) =
+      (ds.reverse.find? (fun x => x.desc = k)).or (m.find? (fun x => x.desc = k)) := by
+  induction ds with
+  | nil => intro m k; simp
+  | cons d ds ih =>
+    intro m k
+    rw [List.foldl_cons, ih, find_mapSet, List.reverse_cons, List.find?_append]
+    by_cases hk : d.desc = k
+    · cases h : List.find? (fun x => decide (x.desc = k)) ds.reverse <;> simp [List.find?, hk]
+    · cases h : List.find? (fun x => decide (x.desc = k)) ds.reverse <;> simp [List.find?, hk]
+
+theorem keys_mapSet (m : List Diag) (d : Diag) :
+    (mapSet m d).map (fun x => x.desc) =
+      if d.desc ∈ m.map (fun x => x.desc) then m.map (fun x => x.desc)
+      else m.map (fun x => x.desc) ++ [d.desc] := by
+  induction m with
+  | nil => simp [mapSet]
+  | cons x xs ih =>
+    unfold mapSet
+    by_cases hx : x.desc = d.desc
+    · simp [hx]
+    · have hx' : ¬ d.desc = x.desc := fun e => hx e.symm
+      simp only [hx, if_false, List.map_cons, ih, List.mem_cons, hx', false_or]
+      split <;> simp
+
+theorem nodup_keys_mapSet (m : List Diag) (d : Diag) (h : (m.map (fun x => x.desc)).Nodup) :
+    ((mapSet m d).map (fun x => x.desc)).Nodup := by
+  rw [keys_mapSet]
+  split
+  · exact h
+  · rename_i hn
+    rw [List.nodup_append]
+    refine ⟨h, by simp, ?_⟩
+    intro a ha b hb
+    rw [List.mem_singleton.mp hb]
+    intro e; exact hn (e ▸ ha)
+
+theorem nodup_keys_foldl (ds : List Diag) : ∀ (m : List Diag), (m.map (fun x => x.desc)).Nodup →
+    ((ds.foldl mapSet m).map (fun x => x.desc)).Nodup := by
+  induction ds with
+  | nil => intro m h; exact h
+  | cons d ds ih => intro m h; exact ih _ (nodup_keys_mapSet m d h)
 
 end Verif.C12
